@@ -116,8 +116,10 @@ def run(prop, tier, only=None):
     total = mut.sweep(prop, tier)
     n = 4 if tier == "quick" else 5
     specs = list(gen.plain_specs(n)) + list(gen.typed_specs(3 if tier == "quick" else 4)) + list(gen.explicit_id_specs(3)) + list(gen.eqpair_specs(3))
-    total.merge(parallel(_copy_chunk, specs, prop, prop=prop))
-    total.bounds["Tree.copy / Node.copy"] = f"all plain forests <= {n} nodes, typed <= {3 if tier == 'quick' else 4}, explicit-id and equal-data variants <= 3; every start node, add_self on/off"
+    hst = gen.history_specs(list(gen.plain_specs(3)) + list(gen.typed_specs(2)))
+    big = gen.big_specs(7, 6 if tier == "quick" else 40, lo=18, hi=32)
+    total.merge(parallel(_copy_chunk, specs + hst + big, prop, prop=prop))
+    total.bounds["Tree.copy / Node.copy"] = f"{len(big)} seeded larger trees with 18..32 nodes; {len(hst)} " + "histories: every tree of <= {n} nodes with all accessors evaluated once, then one of remove / remove(keep_children) / move_to / add / remove_children / sort_children / deep copy (native/hist.py), the checks run on the resulting tree".format(n=3) + f"; all plain forests <= {n} nodes, typed <= {3 if tier == 'quick' else 4}, explicit-id and equal-data variants <= 3; every start node, add_self on/off"
     ispecs = list(gen.plain_specs(2 if tier == "quick" else 3)) + list(gen.typed_specs(2))
     total.merge(parallel(_indep_chunk, ispecs, prop, prop=prop))
     total.bounds["independence after Tree.copy"] = f"forests <= {2 if tier == 'quick' else 3} nodes x every single mutation of ops.enum_ops on either side"
